@@ -1,2 +1,5 @@
 pub mod c01;
 pub mod c02;
+pub mod c06;
+pub mod c13;
+pub mod c17;
